@@ -55,19 +55,26 @@ const (
 type model struct {
 	names  map[string]*mBox
 	sub    map[string]int
-	pastUV map[string][]uint32
+	pastUV map[string][]pastInc
 	sess   [2]mSess
 	nextID int
+}
+
+// pastInc is an earlier incarnation of a name: the mailbox object and its UIDVALIDITY.
+type pastInc struct {
+	uv uint32
+	id int
 }
 
 type quirks struct {
 	starServerCount bool // '*' in a sequence set = number of messages on the server, matched against client numbers
 	uidStarUIDNext  bool // '*' in a UID set = UIDNEXT-1
 	readOnlyIgnored bool // EXAMINE behaves like SELECT
+	uidExpungeStar  bool // UID EXPUNGE does not resolve '*': a bare '*' matches nothing, 'n:*' matches every UID >= n
 }
 
 func newModel(pre []string) *model {
-	m := &model{names: map[string]*mBox{}, sub: map[string]int{}, pastUV: map[string][]uint32{}}
+	m := &model{names: map[string]*mBox{}, sub: map[string]int{}, pastUV: map[string][]pastInc{}}
 	for _, n := range pre {
 		m.names[n] = &mBox{id: m.nextID}
 		m.nextID++
@@ -76,7 +83,7 @@ func newModel(pre []string) *model {
 }
 
 func (m *model) clone() *model {
-	c := &model{names: map[string]*mBox{}, sub: map[string]int{}, pastUV: map[string][]uint32{}, nextID: m.nextID}
+	c := &model{names: map[string]*mBox{}, sub: map[string]int{}, pastUV: map[string][]pastInc{}, nextID: m.nextID}
 	boxes := map[*mBox]*mBox{}
 	cp := func(b *mBox) *mBox {
 		if b == nil {
@@ -96,7 +103,7 @@ func (m *model) clone() *model {
 		c.sub[n] = v
 	}
 	for n, v := range m.pastUV {
-		c.pastUV[n] = append([]uint32(nil), v...)
+		c.pastUV[n] = append([]pastInc(nil), v...)
 	}
 	for i := range m.sess {
 		s := m.sess[i]
@@ -178,7 +185,7 @@ func (m *model) key() [16]byte {
 	for _, n := range l {
 		fmt.Fprintf(&sb, "%s:s%d p(", n, m.sub[n])
 		for _, v := range m.pastUV[n] {
-			fmt.Fprintf(&sb, "%d,", uv(v))
+			fmt.Fprintf(&sb, "%d/%d,", uv(v.uv), v.id)
 		}
 		sb.WriteString(")")
 		if b := m.names[n]; b != nil {
@@ -334,6 +341,17 @@ func parseModelSet(s string) []rng {
 		out = append(out, r)
 	}
 	return out
+}
+
+// rawContains: membership when '*' is left unresolved (imapnum semantics: '*' contains only '*',
+// 'n:*' contains every number >= n).
+func rawContains(set []rng, n uint32) bool {
+	for _, r := range set {
+		if r.a != 0 && r.a <= n && (n <= r.b || r.b == 0) {
+			return true
+		}
+	}
+	return false
 }
 
 func setHasStar(s string) bool { return strings.Contains(s, "*") }
@@ -531,7 +549,7 @@ func (m *model) apply(c cmd, q quirks, ok bool) expect {
 			e.status = "fail"
 			return e
 		}
-		m.pastUV[c.Name] = append(m.pastUV[c.Name], b.uv)
+		m.pastUV[c.Name] = append(m.pastUV[c.Name], pastInc{b.uv, b.id})
 		delete(m.names, c.Name)
 		if m.sub[c.Name] == subYes {
 			m.sub[c.Name] = subUnknown
@@ -542,7 +560,7 @@ func (m *model) apply(c cmd, q quirks, ok bool) expect {
 			e.status = "fail"
 			return e
 		}
-		m.pastUV[c.Name] = append(m.pastUV[c.Name], b.uv)
+		m.pastUV[c.Name] = append(m.pastUV[c.Name], pastInc{b.uv, b.id})
 		delete(m.names, c.Name)
 		m.names[c.Name2] = b
 		if m.sub[c.Name] != subNo || m.sub[c.Name2] != subNo {
@@ -586,7 +604,7 @@ func (m *model) apply(c cmd, q quirks, ok bool) expect {
 			return e
 		}
 		s.box = b
-		s.readOnly = c.Op == "EXAMINE" && !q.readOnlyIgnored
+		s.readOnly = c.Op == "EXAMINE"
 		for _, g := range b.msgs {
 			s.view = append(s.view, g.uid)
 		}
@@ -595,7 +613,7 @@ func (m *model) apply(c cmd, q quirks, ok bool) expect {
 		if !needSelected() {
 			return e
 		}
-		if c.Op == "CLOSE" && !s.readOnly {
+		if c.Op == "CLOSE" && !(s.readOnly && !q.readOnlyIgnored) {
 			var idx []int
 			for i, g := range s.box.msgs {
 				if hasFlagStr(g.flags, "\\deleted") {
@@ -613,8 +631,13 @@ func (m *model) apply(c cmd, q quirks, ok bool) expect {
 		if !needSelected() {
 			return e
 		}
-		if s.readOnly {
-			e.status = "fail"
+		if s.readOnly && !q.readOnlyIgnored {
+			// RFC 9051 §6.3.3: no change to the permanent state is permitted through EXAMINE;
+			// whether the server says NO or OK-and-does-nothing is its choice
+			e.status = "any"
+			if ok {
+				break
+			}
 			return e
 		}
 		for _, i := range m.addressed(s, c.UID, c.Set, q) {
@@ -654,10 +677,6 @@ func (m *model) apply(c cmd, q quirks, ok bool) expect {
 			e.status = "fail"
 			return e
 		}
-		if c.Op == "MOVE" && s.readOnly {
-			e.status = "fail"
-			return e
-		}
 		if dst == s.box {
 			// copying a mailbox onto itself is legal IMAP, refusing it is legal too: a refusal
 			// must change nothing, an OK must do the copy
@@ -675,6 +694,11 @@ func (m *model) apply(c cmd, q quirks, ok bool) expect {
 			}
 			break
 		}
+		if c.Op == "MOVE" && s.readOnly && !q.readOnlyIgnored {
+			// a MOVE cannot remove anything from a read-only mailbox: the model expects a refusal
+			e.status = "fail"
+			return e
+		}
 		src := s.box
 		for _, i := range idx {
 			g := src.msgs[i]
@@ -689,8 +713,11 @@ func (m *model) apply(c cmd, q quirks, ok bool) expect {
 		if !needSelected() {
 			return e
 		}
-		if s.readOnly {
-			e.status = "fail"
+		if s.readOnly && !q.readOnlyIgnored {
+			e.status = "any"
+			if ok {
+				break
+			}
 			return e
 		}
 		var idx []int
@@ -702,8 +729,19 @@ func (m *model) apply(c cmd, q quirks, ok bool) expect {
 			}
 		} else {
 			for _, i := range m.addressed(s, true, c.Set, q) {
+				if q.uidExpungeStar && setHasStar(c.Set) && !rawContains(parseModelSet(c.Set), s.box.msgs[i].uid) {
+					continue
+				}
 				if hasFlagStr(s.box.msgs[i].flags, "\\deleted") {
 					idx = append(idx, i)
+				}
+			}
+			if q.uidExpungeStar && setHasStar(c.Set) {
+				idx = nil
+				for i, g := range s.box.msgs {
+					if rawContains(parseModelSet(c.Set), g.uid) && hasFlagStr(g.flags, "\\deleted") {
+						idx = append(idx, i)
+					}
 				}
 			}
 		}
